@@ -15,7 +15,7 @@
 //
 // What it does per listed file: (1) verifrt.P("file:line") before every statement
 // of every block, case clause and comm clause (never inside the clause list of a
-// switch/select body); (2) selectors sync.Mutex/RWMutex/Once/WaitGroup and
+// switch/select body); (2) selectors sync.Mutex/RWMutex/Once/WaitGroup/Pool and
 // io.Pipe/PipeReader/PipeWriter -> verifrt equivalents; (3) `go f(a, b)` ->
 // t1, t2 := a, b; verifrt.Go(func(){ f(t1, t2) }) (arguments are evaluated by the
 // spawner, as the language says); (4) whitelisted map ranges -> range
@@ -295,7 +295,7 @@ func rewrite(rel string, src []byte, orders []string, at map[string]bool) ([]byt
 			if id, ok := x.X.(*ast.Ident); ok && id.Obj == nil {
 				if id.Name == syncName && syncName != "" {
 					switch x.Sel.Name {
-					case "Mutex", "RWMutex", "Once", "WaitGroup":
+					case "Mutex", "RWMutex", "Once", "WaitGroup", "Pool":
 						id.Name = "verifrt"
 						r.usedRT = true
 					default:
